@@ -141,6 +141,7 @@ pub fn gen_sess_run(check: &str, seed: u64, tier: Tier, with_probes: bool) -> Ru
     if tier == Tier::Thorough && f.chance(1, 2) {
         run.set("checkpoint_every_union", 1);
     }
+    boundary_prelude(&mut run, seed);
     {
         // (own stream) one run in seven has a companion e-graph in the same thread (sess.rs)
         let mut cr = Rng::stream(seed, "companion");
@@ -149,6 +150,32 @@ pub fn gen_sess_run(check: &str, seed: u64, tier: Tier, with_probes: bool) -> Ru
         }
     }
     run
+}
+
+/// Naming kind 10 spells every new slot as the name of the very next fresh slot. Whether that matters
+/// depends on what draws the next fresh slot: it has to be a binder of a node whose children exist
+/// already, with the new name free below it. Half of the kind-10 runs start with exactly that:
+/// `(lam [b] (p2 b $0))`, then `(lam [b] (p2 b $1))` - the class of p2 exists, `$1` is spelled last,
+/// the second lam node renames its binder next. (own stream; wide runs excepted: their leaves differ)
+pub fn boundary_prelude(run: &mut Run, seed: u64) {
+    let mut br = Rng::stream(seed, "boundary-prelude");
+    if run.get("naming") != 10 || run.get("wide") != 0 || !br.chance(1, 2) {
+        return;
+    }
+    let names: Vec<S> = {
+        let mut set = std::collections::BTreeSet::new();
+        for t in all_terms(&run.ops) {
+            t.all_names(&mut set);
+        }
+        set.into_iter().collect()
+    };
+    // b: a name used as a binder name by the generator (first name above the user alphabet), or 2
+    let user_max = all_terms(&run.ops).iter().flat_map(|t| t.free_vec()).max().unwrap_or(1).max(1);
+    let b = names.iter().copied().find(|x| *x > user_max).unwrap_or(user_max + 1);
+    let mk = |x: S| Tm::node("lam", vec![], vec![(vec![b], Tm::leaf("p2", vec![b, x]))]);
+    run.ops.insert(0, Op::new("add").t(mk(1)));
+    run.ops.insert(0, Op::new("add").t(mk(0)));
+    run.set("boundary_prelude", 1);
 }
 
 pub fn state_hash<L: SimLang, N: Analysis<L>>(eg: &EGraph<L, N>) -> u64 {
@@ -818,8 +845,10 @@ impl SessCc {
         if c02 && out.violations.is_empty() && out.discarded.is_none() && !s.tracked.is_empty() {
             let r = catch_op(|| {
                 let nt = s.tracked.len();
-                for _ in 0..nt.min(4) {
-                    let i = orng.below(nt);
+                let mut order: Vec<usize> = (0..nt).collect();
+                orng.shuffle(&mut order);
+                order.truncate(16);
+                for i in order {
                     let tm = s.tracked[i].tm.clone();
                     let free = tm.free_vec();
                     let mut rho: BTreeMap<S, S> = free.iter().map(|x| (*x, *x)).collect();
